@@ -31,3 +31,5 @@ def run(prog, rep):
     _rk14.run_setter_verbatim(prog, rep, classes=('nix::Property', 'nix::Section'), floor=6)
     _rk14.run_store_verbatim(prog, rep)
     _rk14.run_getter_verbatim(prog, rep)
+    from ..rules import r_mbt as _mbt14
+    _mbt14.run(prog, rep, only=r'^nix::(Property|Section)::', floor=4)
